@@ -114,7 +114,36 @@ class dict_(dict, metaclass=_Meta):
             return a[0].copy()
         return dict(*a, **k)
 
-    fromkeys = dict.fromkeys
+    @staticmethod
+    def fromkeys(keys, value=None):
+        if _b.isinstance(keys, SymList):
+            return _fromkeys_sym(keys, value)
+        return dict.fromkeys(keys, value)
+
+
+def _seq_domain(sl):
+    """Array K Bool characterising the elements of a symbolic sequence (quantified definition)."""
+    c = _c()
+    ks = sl._elem.sort()
+    dom = c.fresh("elems", z3.ArraySort(ks, z3.BoolSort()))
+    k = c.fresh("ek", ks)
+    c.assume(z3.ForAll([k], z3.Select(dom, k) == z3.Contains(sl.term, z3.Unit(k))))
+    return dom
+
+
+def _fromkeys_sym(keys, value):
+    from .heap import Map
+    c = _c()
+    vty = T.Int if _b.isinstance(value, (int, SymInt)) and not _b.isinstance(value, bool) else None
+    if vty is None:
+        raise OutOfReach("dict.fromkeys over a symbolic sequence with a non-int value")
+    mty = Map(keys._elem, vty)
+    dom = _seq_domain(keys)
+    n = c.fresh("fk_size", z3.IntSort())
+    c.assume(z3.And(n >= 0, n <= keys._len()))
+    t = mty.dt.mk(dom, z3.K(keys._elem.sort(), vty.unwrap(value)), n)
+    mty.assume_wf(t)
+    return SymDict(Box(t), mty)
 
 
 class set_(set, metaclass=_Meta):
@@ -124,6 +153,17 @@ class set_(set, metaclass=_Meta):
     def __new__(cls, x=()):
         if _b.isinstance(x, SymSet):
             return x.copy()
+        if _b.isinstance(x, SymDict):
+            return x.keyset()
+        if _b.isinstance(x, SymList):
+            from .heap import Set
+            c = _c()
+            st = Set(x._elem)
+            n = c.fresh("setsize", z3.IntSort())
+            c.assume(z3.And(n >= 0, n <= x._len()))
+            t = st.dt.mk(_seq_domain(x), n)
+            st.assume_wf(t)
+            return SymSet(Box(t), st)
         return set(x)
 
 
@@ -293,7 +333,24 @@ class _SymRange:
             i = i + 1
 
 
+def _sorted_symset(ss):
+    """sorted(set): a fresh sequence that is strictly increasing and has exactly the set's elements."""
+    from .heap import Seq as _Seq
+    c = _c()
+    ety = ss._ty.elem
+    sq = c.fresh("sorted", z3.SeqSort(ety.sort()))
+    ss._ty.assume_wf(ss.term)
+    c.assume(z3.Length(sq) == ss._ty.dt.size(ss.term))
+    i, j = c.fresh("si", z3.IntSort()), c.fresh("sj", z3.IntSort())
+    c.assume(z3.ForAll([i, j], z3.Implies(z3.And(0 <= i, i < j, j < z3.Length(sq)), sq[i] < sq[j])))
+    k = c.fresh("sk", ety.sort())
+    c.assume(z3.ForAll([k], z3.Select(ss._ty.dt.dom(ss.term), k) == z3.Contains(sq, z3.Unit(k))))
+    return SymList(Box(sq), ety)
+
+
 def sorted_(it, key=None, reverse=False):
+    if _b.isinstance(it, SymSet) and key is None and not reverse and it._ty.elem in (T.Int, T.Str):
+        return _sorted_symset(it)
     if _b.isinstance(it, SymList):
         n = z3.simplify(it._len())
         if not z3.is_int_value(n):
